@@ -85,6 +85,7 @@ type Explorer struct {
 	Violations []*Violation
 	Internal   []string
 	violSeen   map[string]int
+	internalCount int
 }
 
 func NewExplorer(p *Program, harness string) (*Explorer, error) {
@@ -185,8 +186,17 @@ func (e *Explorer) collect(ex *Exec, res *PathResult) {
 		st.Unwind++
 		e.Internal = append(e.Internal, res.Msg)
 	case "internal":
-		e.Internal = append(e.Internal, res.Msg)
-		if len(e.Internal) > 20 {
+		dup := false
+		for _, m := range e.Internal {
+			if m == res.Msg {
+				dup = true
+			}
+		}
+		if !dup {
+			e.Internal = append(e.Internal, res.Msg)
+		}
+		e.internalCount++
+		if e.internalCount > 50 {
 			e.stop = true
 		}
 	}
